@@ -88,6 +88,44 @@ class C02(Check):
         ctx = self.bench.open(files)
         try:
             project = ctx.project
+            libs = [q for q in files if q.endswith("xm.py") and len(files) > 1]
+            phases = [0, 1] if libs and ("only" not in case or case.get("phase") == 1) else [0]
+            work = []
+            for phase in phases:
+                if phase == 1:
+                    # second phase on the same long-lived project: the library modules are edited through rope (all
+                    # definitions move down by two lines) while their importers stay untouched, then everything is asked again
+                    from rope.base import change as _change
+                    files = dict(files)
+                    cs = _change.ChangeSet("edit libraries")
+                    for q in libs:
+                        files[q] = "# edited\n\n" + files[q]
+                        cs.add_change(_change.ChangeContents(project.get_file(q), files[q]))
+                    project.do(cs)
+                    pb = ProjectBinding(files)
+                    classes = pb.classes()
+                    tokkey = {(p_, s_): k_ for p_, toks_ in pb.tokens.items() for s_, e_, n_, k_ in toks_}
+                    spell = {}
+                    for p_, toks_ in pb.tokens.items():
+                        for s_, e_, n_, k_ in toks_:
+                            spell.setdefault(n_, set()).add(k_ if k_ is not None else ("none", p_, s_))
+                    feats0 = feats0 + ["phase:after-library-edit"]
+                work.append((phase, files, pb, classes, tokkey, spell, feats0))
+                if phase == 0 and len(phases) > 1:
+                    if case.get("phase") == 1:
+                        # replaying a second-phase failure: the first phase runs in full (to warm the project), unjudged
+                        self._evaluate({k_: v_ for k_, v_ in case.items() if k_ != "only"},
+                                       {"n": 0, "nt": [], "out": {}, "mech": {}, "fails": [], "refused": 0, "passfeat": []}, project, False, *work[-1])
+                    else:
+                        self._evaluate(case, res, project, triage, *work[-1])
+            self._evaluate(case, res, project, triage, *work[-1])
+        finally:
+            ctx.close()
+        res["sample"] = {"files": files, "classes": len(classes)}
+        return res
+
+    def _evaluate(self, case, res, project, triage, phase, files, pb, classes, tokkey, spell, feats0):
+        if True:
             for key, locs in sorted(classes.items(), key=repr):
                 name = key[-1] if key[0] == "lex" else key[1].split(".")[-1]
                 kfeats = self.key_features(pb, key, locs, files)
@@ -104,7 +142,7 @@ class C02(Check):
 
                     def fail(kind, extra, ef=()):
                         res["fails"].append({"kind": kind, "features": sorted(set(feats + list(ef))), "size": len(str(files)) // 50,
-                                             "detail": dict(detail, **extra), "case": dict(case, only=[qp, qs])})
+                                             "detail": dict(detail, **extra), "case": dict(case, only=[qp, qs], phase=phase)})
                     # ---- find_occurrences
                     try:
                         got = findit.find_occurrences(project, project.get_file(qp), qs)
@@ -181,10 +219,6 @@ class C02(Check):
                         res["out"]["rename-refused"] = res["out"].get("rename-refused", 0) + 1
                     except Exception as e:
                         fail("internal:" + type(e).__name__, {"where": "Rename.get_changes", "exception": repr(e)})
-        finally:
-            ctx.close()
-        res["sample"] = {"files": files, "classes": len(classes)}
-        return res
 
     def ctx_at(self, pb, path, start):
         """syntactic context of the token at `start`: inside a lambda / comprehension (element, first iterable) / f-string"""
